@@ -7,7 +7,7 @@ import shutil
 import tempfile
 
 from mc import bloomlib, keys as K
-from mc.engine import PRUNE, State, System, Violation, call
+from mc.engine import PRUNE, State, System, Violation, call, twin_divergence
 
 from probables import CountingBloomFilter
 
@@ -230,12 +230,12 @@ class CBFSystem(System):
             self._queries(cfg, post, keys, hf, bad)
         return out
 
-    def _queries(self, cfg, st, keys, hf, bad):
-        f = st.impl
-        before = bloomlib.bloom_observation(f, True)
+    def _mk_other(self, cfg, keys, hf):
         other = CountingBloomFilter(cfg["n"], cfg["p"], hash_function=hf)
         other.add(keys[0], 2)
-        ob = bloomlib.bloom_observation(other, True)
+        return other
+
+    def _ro(self, cfg, f, keys, hf, other):
         for k in list(keys) + ["absent-1", b"absent-2"]:
             call(f.check, k)
             call(f.__contains__, k)
@@ -259,11 +259,22 @@ class CBFSystem(System):
         call(other.union, f)
         call(other.intersection, f)
         call(other.jaccard_index, f)
+
+    def _queries(self, cfg, st, keys, hf, bad):
+        f = st.impl
+        before = bloomlib.bloom_observation(f, True)
+        other = self._mk_other(cfg, keys, hf)
+        ob = bloomlib.bloom_observation(other, True)
+        self._ro(cfg, f, keys, hf, other)
         after = bloomlib.bloom_observation(f, True)
         if before != after:
             bad("C19", "cbf.queries_do_not_mutate", {"before": repr(before)[:300], "after": repr(after)[:300]})
         if bloomlib.bloom_observation(other, True) != ob:
             bad("C19", "cbf.set_ops_do_not_mutate_operand", {})
+        if self.cur_depth <= cfg.get("twin_depth", 2):
+            div = twin_divergence(self, cfg, st, lambda q: self._ro(cfg, q.impl, keys, hf, self._mk_other(cfg, keys, hf)), lambda x: bloomlib.bloom_observation(x.impl, True))
+            if div is not None:
+                bad("C19", "cbf.queried_twin_diverges_one_step_later", div)
         g = self.clone(st).impl
         c = call(g.clear)
         fresh = CountingBloomFilter(cfg["n"], cfg["p"], hash_function=hf)
